@@ -1,2 +1,3 @@
+import FrappyDrive.C13
 import FrappyDrive.C20
 import FrappyDrive.Util
